@@ -1,6 +1,7 @@
 import RsslVerif.Gen.PanicSites
 import RsslVerif.Model.Progress
 import RsslVerif.Lemmas.Progress
+import RsslVerif.Lemmas.ProgressChain
 import RsslVerif.Lemmas.PanicClasses
 import RsslVerif.Gen.ArithSites
 import RsslVerif.Model.DefinedLoc
@@ -239,97 +240,138 @@ theorem lex_progress (lex : Lex) (len : Nat)
 
 /-! ## ConditionChain -/
 
-/-- Tie to the source: `ConditionChain::{switch, pop, is_active}` and their users have the modelled shape. -/
-theorem cond_shape_as_modelled :
-    condShape = ⟨true, true, true, true, true, true, true, true, true, true, true⟩ := by decide
+section CondChain
+open RsslVerif.Lemmas.ProgressChain
 
-theorem run_depth (ds : List Dir) : ∀ (st : List CS) (out : List Nat),
-    (match run ds st out with | .ok (st', _) => Except.ok st'.length | .error e => .error e) =
-      depthSpec ds st.length := by
-  induction ds with
-  | nil => intro st out; rfl
-  | cons d ds ih =>
-    intro st out
+/-- Tie to the source: `ConditionChain::{switch, pop, is_active, push}`, the per-file bracket of
+    `preprocess_included_file` and their users in `preprocess_command` have the modelled shape. -/
+theorem cond_shape_as_modelled :
+    condShape = ⟨true, true, true, true, true, true, true, true, true, true, true, true, true, true, true, true, true, true, true, true⟩ ∧
+    chainBaseWrites = 2 := by
+  decide
+
+/-- **The condition chain is total, for every tree of files.**  (1) No state of the chain panics: the unchecked
+    slice `&mut self.0[self.1..]` of `switch` is always in range, because `self.1 ≤ self.0.len()` is kept by every
+    directive and by the save / set / check / restore bracket around an included file — so a run ends in the
+    emitted text or in one of the six rendered diagnostics.  (2) For a file without `#include` and without
+    malformed directive lines, *which* of them is decided by the nesting shape alone — the number of open `#if`s
+    and whether the innermost one has had its `#else` (fix 03ca601: a second `#else`, or an `#elif` after it, is
+    an error) — never by the values of the conditions: an `#else`/`#elif`/`#endif` without open block is the
+    matching error, an open block at the end of the file is `ConditionChainNotFinished`. -/
+theorem cond_chain_total (f : Lines) :
+    runFile f ≠ .error .panicSlice ∧
+    (f.plain = true →
+      (match runFile f with | .ok _ => Except.ok () | .error e => .error e) =
+        (match shapeSpec f [] with
+         | .error e => .error e
+         | .ok [] => .ok ()
+         | .ok (_ :: _) => .error .notFinished)) := by
+  constructor
+  · have h := (step_keeps (.incl f) ⟨[], 0⟩ (Nat.le_refl 0)).1
+    unfold runFile
+    cases hs : step ⟨[], 0⟩ (.incl f) with
+    | error e => rw [hs] at h; simpa using h
+    | ok w =>
+      obtain ⟨c, out⟩ := w
+      simp only
+      split <;> simp
+  · intro hp
+    have h := run_shape f [] [] hp
+    simp only [List.map_nil] at h
+    rw [← h]
+    unfold runFile step
+    have hact : Chain.isActive ⟨[], 0⟩ = true := rfl
+    rw [if_pos hact]
+    simp only [List.length_nil]
+    have hk := run_keeps f ⟨[], 0⟩ [] (Nat.le_refl 0)
+    cases hr : run f ⟨[], 0⟩ [] with
+    | error e => simp
+    | ok w =>
+      obtain ⟨c2, o⟩ := w
+      have hb : c2.base = 0 := (hk.2 c2 o hr).1
+      simp only [hb, elses]
+      cases hbl : c2.blocks with
+      | nil => simp
+      | cons b rest => simp
+
+/-- **An included file cannot touch the `#if` blocks of the files that include it** (fix 115a619): whatever
+    the file contains, if the `#include` succeeds the chain is exactly what it was — same blocks, same `self.1`;
+    so an `#else` / `#elif` / `#endif` of the included file never switches or closes an outer block, and a block
+    the file leaves open is `ConditionChainNotFinished` at the end of that file. -/
+theorem cond_include_isolated (f : Lines) (c c' : Chain) (o : List Nat)
+    (hs : step c (.incl f) = .ok (c', o)) : c'.blocks = c.blocks ∧ c'.base = c.base := by
+  unfold step at hs
+  by_cases hact : c.isActive = true
+  · rw [if_pos hact] at hs
+    have hk := run_keeps f { c with base := c.blocks.length } [] (Nat.le_refl _)
+    cases hr : run f { c with base := c.blocks.length } [] with
+    | error e => rw [hr] at hs; cases hs
+    | ok w =>
+      obtain ⟨c2, o2⟩ := w
+      rw [hr] at hs
+      simp only at hs
+      by_cases hlen : c2.blocks.length = c2.base
+      · rw [if_neg (by simpa using hlen)] at hs
+        simp only [Except.ok.injEq, Prod.mk.injEq] at hs
+        obtain ⟨hb, _, hbot⟩ := hk.2 c2 o2 hr
+        simp only at hb hbot
+        have hl : c2.blocks.length = c.blocks.length := by rw [hlen, hb]
+        rw [← hl, bottom_all, hl, bottom_all] at hbot
+        rw [← hs.1]
+        exact ⟨hbot, rfl⟩
+      · rw [if_pos (by simpa using hlen)] at hs
+        cases hs
+  · rw [if_neg hact] at hs
+    simp only [Except.ok.injEq, Prod.mk.injEq] at hs
+    rw [← hs.1]
+    exact ⟨rfl, rfl⟩
+
+/-- the chain never gets deeper than the number of lines seen -/
+theorem cond_depth_bounded : ∀ (f : Lines) (st st' : List Bool), shapeSpec f st = .ok st' →
+    st'.length ≤ st.length + f.size
+  | .nil, st, st', h => by
+    simp only [shapeSpec, Except.ok.injEq] at h
+    simp [h, Lines.size]
+  | .cons d r, st, st', h => by
     cases d with
     | ifD a =>
-      simp only [run, step, depthSpec]
-      by_cases hact : isActive st = true
-      · rw [if_pos hact]; exact ih _ _
-      · rw [if_neg hact]; exact ih _ _
+      have := cond_depth_bounded r _ _ h
+      simp only [List.length_cons, Lines.size] at this ⊢; omega
     | elif a =>
       cases st with
-      | nil => simp [run, step, switch, depthSpec]
-      | cons v rest =>
-        simp only [run, step, switch, depthSpec, List.length_cons, Nat.add_one_ne_zero, if_false]
-        exact ih _ _
+      | nil => simp [shapeSpec] at h
+      | cons b st0 =>
+        cases b with
+        | true => simp [shapeSpec] at h
+        | false =>
+          have := cond_depth_bounded r _ _ h
+          simp only [List.length_cons, Lines.size] at this ⊢; omega
     | els =>
       cases st with
-      | nil => simp [run, step, switch, depthSpec]
-      | cons v rest =>
-        simp only [run, step, switch, depthSpec, List.length_cons, Nat.add_one_ne_zero, if_false]
-        exact ih _ _
+      | nil => simp [shapeSpec] at h
+      | cons b st0 =>
+        cases b with
+        | true => simp [shapeSpec] at h
+        | false =>
+          have := cond_depth_bounded r _ _ h
+          simp only [List.length_cons, Lines.size] at this ⊢; omega
     | endif =>
       cases st with
-      | nil => simp [run, step, pop, depthSpec]
-      | cons v rest =>
-        simp only [run, step, pop, depthSpec, List.length_cons, Nat.add_one_ne_zero, if_false,
-          Nat.add_sub_cancel]
-        exact ih _ _
+      | nil => simp [shapeSpec] at h
+      | cons b st0 =>
+        have := cond_depth_bounded r _ _ h
+        simp only [List.length_cons, Lines.size] at this ⊢; omega
     | text id =>
-      simp only [run, step, depthSpec]
-      exact ih _ _
+      have := cond_depth_bounded r _ _ h
+      simp only [Lines.size] at this ⊢; omega
+    | junk =>
+      have := cond_depth_bounded r _ _ h
+      simp only [Lines.size] at this ⊢; omega
+    | incl g =>
+      have := cond_depth_bounded r _ _ h
+      simp only [Lines.size] at this ⊢; omega
 
-/-- **The condition chain is total and its verdict depends on nesting depth alone**: for every directive
-    sequence the run ends in the emitted text or in exactly one of the three diagnostics, and which one is
-    decided by counting `#if`s and `#endif`s — an `#else`/`#elif`/`#endif` at depth 0 is the matching error,
-    a non-empty chain at the end of the file is `ConditionChainNotFinished`.  No state of the chain panics. -/
-theorem cond_chain_total (ds : List Dir) :
-    (match runFile ds with | .ok _ => Except.ok () | .error e => .error e) =
-      (match depthSpec ds 0 with
-       | .error e => .error e
-       | .ok 0 => .ok ()
-       | .ok (_ + 1) => .error .notFinished) := by
-  have h := run_depth ds [] []
-  simp only [List.length_nil] at h
-  unfold runFile
-  cases hr : run ds [] [] with
-  | error e =>
-    rw [hr] at h
-    simp only at h
-    rw [← h]
-  | ok w =>
-    obtain ⟨st, out⟩ := w
-    rw [hr] at h
-    simp only at h
-    rw [← h]
-    cases st with
-    | nil => simp
-    | cons v rest => simp
-
-/-- the chain never gets deeper than the number of directives seen -/
-theorem cond_depth_bounded (ds : List Dir) : ∀ (d n : Nat), depthSpec ds d = .ok n → n ≤ d + ds.length := by
-  induction ds with
-  | nil => intro d n h; simp only [depthSpec, Except.ok.injEq] at h; simp [h]
-  | cons x ds ih =>
-    intro d n h
-    cases x with
-    | ifD a => have := ih _ _ h; simp only [List.length_cons]; omega
-    | elif a =>
-      simp only [depthSpec] at h
-      split at h
-      · cases h
-      · have := ih _ _ h; simp only [List.length_cons]; omega
-    | els =>
-      simp only [depthSpec] at h
-      split at h
-      · cases h
-      · have := ih _ _ h; simp only [List.length_cons]; omega
-    | endif =>
-      simp only [depthSpec] at h
-      split at h
-      · cases h
-      · have := ih _ _ h; simp only [List.length_cons]; omega
-    | text id => have := ih _ _ h; simp only [List.length_cons]; omega
+end CondChain
 
 /-! ## recursion guard of the macro expander, rendering of errors -/
 
@@ -378,9 +420,13 @@ open RsslVerif.Model.DefinedLoc RsslVerif.Lemmas.DefinedLoc RsslVerif.Gen.ArithS
 /-- Tie to the source: `find_single_macro` reports `defined` only at or after `next_pos` and only under
     `apply_defined`; the `Defined` arm takes the start from `tokens[pos]`, the end from the last consumed token and
     subtracts the raw values; the scan positions after each operation are the modelled ones; only `#if` and `#elif`
-    scan with `apply_defined = true`; `Token::Concat` / `Token::MacroArg` are made in `Macro::parse` only. -/
+    scan with `apply_defined = true`; `Token::Concat` / `Token::MacroArg` are made in `Macro::parse` only; since
+    f08088c the `(` of an invocation is looked for after blanks *and line ends* (in `split_macro_args` and in the
+    function check of `find_single_macro`) and an empty argument list may hold a line end; since 3c81ed5 an API
+    define whose value contains a line end is rejected before `Macro::parse`. -/
 theorem defined_shape_as_modelled :
-    definedShape = ⟨true, true, true, true, true, true, true, true, true, true, true, true, true, true, true, true⟩ ∧
+    definedShape = ⟨true, true, true, true, true, true, true, true, true, true, true, true, true, true, true, true,
+      true, true, true, true, true, true⟩ ∧
     recursiveScanCalls = 2 ∧ scansWithDefined = 2 ∧ concatConstructions = 1 ∧ macroArgConstructions = 1 := by
   decide
 
@@ -471,9 +517,20 @@ example : parseMultiple oneTok 4 [7, 8, 9] = some (.ok ([], [7, 8, 9])) := rfl
 example : readToEnd (fun off => if off < 3 then some (off + 1, off == 1) else none) 5 (Stream.new 3) [] =
     some (.tokens [⟨0, 1, false⟩, ⟨1, 2, true⟩, ⟨2, 3, false⟩, ⟨3, 3, true⟩]) := by decide
 
-example : runFile [.ifD false, .text 1, .elif true, .text 2, .els, .text 3, .endif, .text 4] = .ok [2, 4] := rfl
-example : runFile [.ifD true, .els, .endif, .endif] = .error .endIfNotMatched := rfl
-example : runFile [.ifD true, .ifD false] = .error .notFinished := rfl
+example : runFile (.ofList [.ifD false, .text 1, .elif true, .text 2, .els, .text 3, .endif, .text 4]) = .ok [2, 4] := rfl
+example : runFile (.ofList [.ifD true, .els, .endif, .endif]) = .error .endIfNotMatched := rfl
+example : runFile (.ofList [.ifD true, .ifD false]) = .error .notFinished := rfl
+-- fix 03ca601: the `#else` branch is the last one
+example : runFile (.ofList [.ifD false, .els, .text 1, .els, .text 2, .endif]) = .error .elseAfterElse := rfl
+example : runFile (.ofList [.ifD false, .els, .text 1, .elif true, .text 2, .endif]) = .error .elifAfterElse := rfl
+-- fix 115a619: the blocks of an included file start and end inside it
+example : runFile (.ofList [.ifD true, .text 1, .incl (.ofList [.els]), .text 2, .endif]) = .error .elseNotMatched := rfl
+example : runFile (.ofList [.incl (.ofList [.ifD true, .text 1]), .text 2, .endif]) = .error .notFinished := rfl
+example : runFile (.ofList [.ifD true, .incl (.ofList [.ifD false, .text 1, .els, .text 2, .endif, .text 3]), .els, .text 4, .endif]) = .ok [2, 3] := rfl
+-- a skipped `#include` does not load the file; fix ed75afa: a malformed directive line is ignored in a skipped block
+example : runFile (.ofList [.ifD false, .incl (.ofList [.endif, .endif]), .junk, .endif, .text 1]) = .ok [1] := rfl
+example : runFile (.ofList [.junk]) = .error .unknownCommand := rfl
+example : (Lines.ofList [.ifD false, .text 1, .elif true, .els, .endif]).plain = true := rfl
 
 section
 open RsslVerif.Model.DefinedLoc RsslVerif.Lemmas.DefinedLoc RsslVerif.Gen.ArithSites
